@@ -44,20 +44,24 @@ theorem mkdir_ok {fs fs' : Fs} {cs} (h : mkdir fs cs = .ok fs') :
     split at h
     · cases h
     · rename_i hg
-      injection h with h
-      exact ⟨q, hq, hg, h.symm⟩
+      split at h
+      · cases h
+      · injection h with h
+        exact ⟨q, hq, hg, h.symm⟩
 
 theorem fileCreate_ok {fs fs' : Fs} {cs c} (h : fileCreate fs cs c = .ok fs') :
     ∃ q m, resolve fs true cs = .ok q ∧ fs' = fs.set q (.file c m) ∧
-      ((fs.get q = none ∧ m = 0o644) ∨ ∃ c0, fs.get q = some (.file c0 m)) := by
+      ((fs.get q = none ∧ m = fs.masked 0o666) ∨ ∃ c0, fs.get q = some (.file c0 m)) := by
   unfold fileCreate at h
   split at h
   · cases h
   · rename_i q hq
     split at h
     · rename_i hg
-      injection h with h
-      exact ⟨q, _, hq, h.symm, Or.inl ⟨hg, rfl⟩⟩
+      split at h
+      · cases h
+      · injection h with h
+        exact ⟨q, _, hq, h.symm, Or.inl ⟨hg, rfl⟩⟩
     · rename_i c0 m hg
       injection h with h
       exact ⟨q, m, hq, h.symm, Or.inr ⟨c0, hg⟩⟩
@@ -109,11 +113,36 @@ theorem symlink_ok {fs fs' : Fs} {cs t} (h : symlink fs cs t = .ok fs') :
       split at h
       · cases h
       · rename_i hg
-        injection h with h
-        exact ⟨q, hq, hg, by simpa using ht, h.symm⟩
+        split at h
+        · cases h
+        · injection h with h
+          exact ⟨q, hq, hg, by simpa using ht, h.symm⟩
 
 /-- an ordinary file name: not empty, not `.`, not `..` -/
 def Normal (c : Name) : Prop := c ≠ dot ∧ c ≠ [] ∧ c ≠ dotdot
+
+/-- a name a file system accepts: at most `NAME_MAX` bytes -/
+def Short (c : Name) : Prop := c.length ≤ nameMax
+
+instance (c : Name) : Decidable (Short c) := by unfold Short; infer_instance
+
+theorem nameTooLong_concat (p : Path) (x : Name) : nameTooLong (p ++ [x]) = decide (nameMax < x.length) := by
+  simp [nameTooLong]
+
+theorem nameTooLong_of_short {T : Path} (hT : ∀ c ∈ T, Short c) {c : List Name} (hc : ∀ x ∈ c, Short x) :
+    nameTooLong (T ++ c) = false := by
+  unfold nameTooLong
+  cases h : (T ++ c).getLast? with
+  | none => rfl
+  | some x =>
+    have hm : x ∈ T ++ c := List.mem_of_getLast? h
+    have : Short x := by
+      rcases List.mem_append.mp hm with hm | hm
+      · exact hT x hm
+      · exact hc x hm
+    unfold Short at this
+    simp only [decide_eq_false_iff_not]
+    omega
 
 instance (c : Name) : Decidable (Normal c) := by unfold Normal; infer_instance
 
@@ -355,9 +384,10 @@ theorem resolve_enoent (fs : Fs) (fl : Bool) (cs : List Name)
 
 /-! ### the system calls on a path that resolves to itself -/
 
-theorem mkdir_vacant {fs : Fs} {cs} (hr : resolve fs false cs = .ok cs) (hv : fs.get cs = none) :
+theorem mkdir_vacant {fs : Fs} {cs} (hr : resolve fs false cs = .ok cs) (hv : fs.get cs = none)
+    (hs : nameTooLong cs = false) :
     mkdir fs cs = .ok (fs.set cs (.dir (newDirMode fs cs))) := by
-  unfold mkdir; rw [hr]; simp only [hv]
+  unfold mkdir; rw [hr]; simp only [hv, hs, Bool.false_eq_true, if_false]
 
 theorem mkdir_exists {fs : Fs} {cs n} (hr : resolve fs false cs = .ok cs) (hv : fs.get cs = some n) :
     mkdir fs cs = .error .EEXIST := by
@@ -367,9 +397,10 @@ theorem isDir_dir {fs : Fs} {cs m} (hr : resolve fs true cs = .ok cs) (hv : fs.g
     isDir fs cs = true := by
   unfold isDir; rw [hr]; simp only [hv]
 
-theorem fileCreate_vacant {fs : Fs} {cs} (c : Bytes) (hr : resolve fs true cs = .ok cs) (hv : fs.get cs = none) :
-    fileCreate fs cs c = .ok (fs.set cs (.file c 0o644)) := by
-  unfold fileCreate; rw [hr]; simp only [hv]
+theorem fileCreate_vacant {fs : Fs} {cs} (c : Bytes) (hr : resolve fs true cs = .ok cs) (hv : fs.get cs = none)
+    (hs : nameTooLong cs = false) :
+    fileCreate fs cs c = .ok (fs.set cs (.file c (fs.masked 0o666))) := by
+  unfold fileCreate; rw [hr]; simp only [hv, hs, Bool.false_eq_true, if_false]
 
 theorem setPerm_file {fs : Fs} {cs c m} (p : Nat) (hr : resolve fs true cs = .ok cs) (hv : fs.get cs = some (.file c m)) :
     setPerm fs cs p = .ok (fs.set cs (.file c p)) := by
@@ -383,11 +414,12 @@ theorem lexists_vacant {fs : Fs} {cs} (hr : resolve fs false cs = .ok cs) (hv : 
     lexists fs cs = false := by
   unfold lexists; rw [hr]; simp only [hv]; rfl
 
-theorem symlink_vacant {fs : Fs} {cs} {t : Bytes} (ht : t ≠ []) (hr : resolve fs false cs = .ok cs) (hv : fs.get cs = none) :
+theorem symlink_vacant {fs : Fs} {cs} {t : Bytes} (ht : t ≠ []) (hr : resolve fs false cs = .ok cs) (hv : fs.get cs = none)
+    (hs : nameTooLong cs = false) :
     symlink fs cs t = .ok (fs.set cs (.symlink t)) := by
   unfold symlink
   have : t.isEmpty = false := by cases t <;> simp_all
-  rw [this, hr]; simp only [hv]; rfl
+  rw [this, hr]; simp only [hv, hs, Bool.false_eq_true, if_false]
 
 /-! ### `create_dir_all` when only directories are in the way -/
 
@@ -444,7 +476,7 @@ theorem resolve_of_dirs {fs : Fs} (fl : Bool) (c : List Name) (hc : ∀ x ∈ c,
       exact hd (k - T.length) (by omega)
 
 /-- the last `mkdir` of `create_dir_all`: all ancestors are directories already -/
-theorem cda_last {fs : Fs} (c' : List Name) (x : Name) (hc : ∀ y ∈ c' ++ [x], Normal y)
+theorem cda_last {fs : Fs} (c' : List Name) (x : Name) (hc : ∀ y ∈ c' ++ [x], Normal y) (hsx : Short x)
     (htop : ∀ k, 0 < k → k ≤ T.length → ∃ m, fs.get (T.take k) = some (.dir m))
     (hd : ∀ k, k ≤ c'.length → ∃ m, fs.get (T ++ c'.take k) = some (.dir m))
     (hp : NoneOrDir (fs.get (T ++ (c' ++ [x])))) :
@@ -459,7 +491,10 @@ theorem cda_last {fs : Fs} (c' : List Name) (x : Name) (hc : ∀ y ∈ c' ++ [x]
     exact hd k (by omega)
   rcases hp with hv | ⟨m, hv⟩
   · left
-    exact ⟨hv, mkdir_vacant (resolve_of_dirs hT false _ hc htop hd' (by simp)) hv⟩
+    refine ⟨hv, mkdir_vacant (resolve_of_dirs hT false _ hc htop hd' (by simp)) hv ?_⟩
+    rw [← List.append_assoc, nameTooLong_concat]
+    unfold Short at hsx
+    simp only [decide_eq_false_iff_not]; omega
   · right
     refine ⟨⟨m, hv⟩, mkdir_exists (resolve_of_dirs hT false _ hc htop hd' (by simp)) hv,
       isDir_dir (resolve_of_dirs hT true _ hc htop hd' (fun _ t h => ?_)) hv⟩
@@ -467,13 +502,14 @@ theorem cda_last {fs : Fs} (c' : List Name) (x : Name) (hc : ∀ y ∈ c' ++ [x]
 
 
 theorem cda_spec (hne : T ≠ []) : ∀ (n : Nat) (c : List Name) (fs : Fs), c.length = n → (∀ x ∈ c, Normal x) →
+    (∀ x ∈ c, Short x) →
     (∀ k, 0 < k → k ≤ T.length → ∃ m, fs.get (T.take k) = some (.dir m)) →
     (∀ k, k ≤ c.length → NoneOrDir (fs.get (T ++ c.take k))) →
     ∃ fs1, createDirAll fs (T ++ c) = .ok fs1 ∧ CdaPost T c fs fs1 := by
   intro n
   induction n with
   | zero =>
-    intro c fs hlen _ htop _
+    intro c fs hlen _ _ htop _
     have hc0 : c = [] := List.length_eq_zero_iff.mp hlen
     subst hc0
     obtain ⟨T', x, hTx⟩ : ∃ T' x, T = T' ++ [x] := by
@@ -492,7 +528,7 @@ theorem cda_spec (hne : T ≠ []) : ∀ (n : Nat) (c : List Name) (fs : Fs), c.l
       exact cdaRev_eexist (by rw [← hrev]; simp) (mkdir_exists (hres false) hm) (isDir_dir (hres true) hm)
     · simp at hk; subst hk; simp; exact ⟨m, hm⟩
   | succ n ih =>
-    intro c fs hlen hc htop hnd
+    intro c fs hlen hc hsh htop hnd
     obtain ⟨c', x, hcx⟩ : ∃ c' x, c = c' ++ [x] := by
       rcases List.eq_nil_or_concat c with h | ⟨c', x, h⟩
       · subst h; simp at hlen
@@ -500,6 +536,8 @@ theorem cda_spec (hne : T ≠ []) : ∀ (n : Nat) (c : List Name) (fs : Fs), c.l
     subst hcx
     have hlen' : c'.length = n := by simp at hlen; exact hlen
     have hc' : ∀ y ∈ c', Normal y := fun y hy => hc y (by simp [hy])
+    have hsh' : ∀ y ∈ c', Short y := fun y hy => hsh y (by simp [hy])
+    have hsx : Short x := hsh x (by simp)
     have htk : ∀ k, k ≤ c'.length → (c' ++ [x]).take k = c'.take k := fun k hk =>
       List.take_append_of_le_length hk
     have hrev : (T ++ (c' ++ [x])).reverse = x :: (T ++ c').reverse := by simp
@@ -509,7 +547,7 @@ theorem cda_spec (hne : T ≠ []) : ∀ (n : Nat) (c : List Name) (fs : Fs), c.l
       rwa [List.take_length] at this
     by_cases hall : ∀ k, k ≤ c'.length → ∃ m, fs.get (T ++ c'.take k) = some (.dir m)
     · -- all ancestors exist
-      rcases cda_last hT c' x hc htop hall hP with ⟨hv, hmk⟩ | ⟨⟨m, hv⟩, hmk, hisd⟩
+      rcases cda_last hT c' x hc hsx htop hall hP with ⟨hv, hmk⟩ | ⟨⟨m, hv⟩, hmk, hisd⟩
       · refine ⟨fs.set (T ++ (c' ++ [x])) (.dir (newDirMode fs (T ++ (c' ++ [x])))), ?_, ⟨fun k hk => ?_, fun q => ?_⟩⟩
         · unfold createDirAll; rw [hrev]; exact cdaRev_mkdir_ok hrev' hmk
         · by_cases hk' : k ≤ c'.length
@@ -572,7 +610,7 @@ theorem cda_spec (hne : T ≠ []) : ∀ (n : Nat) (c : List Name) (fs : Fs), c.l
             rw [this, htk j hj]
             exact hjn
         unfold mkdir; rw [hr]
-      obtain ⟨fs1, h1, post1⟩ := ih c' fs hlen' hc' htop hnd'
+      obtain ⟨fs1, h1, post1⟩ := ih c' fs hlen' hc' hsh' htop hnd'
       have htop1 : ∀ k, 0 < k → k ≤ T.length → ∃ m, fs1.get (T.take k) = some (.dir m) := by
         intro k hk hk2
         obtain ⟨m, hm⟩ := htop k hk hk2
@@ -584,7 +622,7 @@ theorem cda_spec (hne : T ≠ []) : ∀ (n : Nat) (c : List Name) (fs : Fs), c.l
         · rw [h]; exact hP
         · have := congrArg List.length hq; simp at this; omega
       unfold createDirAll at h1
-      rcases cda_last hT c' x hc htop1 post1.made hP1 with ⟨hv, hmk⟩ | ⟨⟨m, hv⟩, hmk, hisd⟩
+      rcases cda_last hT c' x hc hsx htop1 post1.made hP1 with ⟨hv, hmk⟩ | ⟨⟨m, hv⟩, hmk, hisd⟩
       · refine ⟨fs1.set (T ++ (c' ++ [x])) (.dir (newDirMode fs1 (T ++ (c' ++ [x])))), ?_, ⟨fun k hk => ?_, fun q => ?_⟩⟩
         · unfold createDirAll; rw [hrev]; exact cdaRev_enoent_ok hrev' henoent h1 hmk
         · by_cases hk' : k ≤ c'.length
